@@ -40,14 +40,36 @@ LnApprox(q) ==
 LnLo(q) == BRSub(LnApprox(q), ErrAbs)
 LnHi(q) == BRAdd(LnApprox(q), ErrAbs)
 
+\* e^y for |y| <= 1/2 by Taylor: 60 terms, remainder < 2^-300
+RECURSIVE ExpSmallIter(_, _, _, _)
+ExpSmallIter(y, m, term, acc) ==
+    IF m = 60 THEN acc ELSE ExpSmallIter(y, m + 1, Tr(BRDiv(BRMul(term, y), BR(m + 1))), BRAdd(acc, term))
+RECURSIVE SquareN(_, _)
+SquareN(q, k) == IF k = 0 THEN q ELSE SquareN(Tr(BRMul(q, q)), k - 1)
+\* e^|x| >= 1 by argument halving and repeated squaring (relative error < 2^-(WP-16) for |x| < 2^11),
+\* e^-|x| as its exact reciprocal (no absolute truncation: the value may be far below 2^-WP).
+ExpBig(x) ==
+    LET ax == BRAbs(x)
+        k  == IF BRLe(ax, BRFrac(1, 2)) THEN 0 ELSE BRILog2(ax) + 2
+        ep == SquareN(ExpSmallIter(BRMul(ax, BRPow2(-k)), 0, BROne, BRZero), k)
+    IN  IF BRSign(x) >= 0 THEN ep ELSE BRDiv(BROne, ep)
+
+P4(x) == LET x2 == BRMul(x, x) IN
+         BRAdd(BRAdd(BRAdd(BRAdd(BROne, x), BRDiv(x2, BR(2))), BRDiv(BRMul(x2, x), BR(6))), BRDiv(BRMul(x2, x2), BR(24)))
+
 \* R(x) = sum_{m>=0} x^m/(m+5)!  ( = (e^x - sum_{j<5} x^j/j!)/x^5 ).
-\* term_0 = 1/120, term_{m+1} = term_m * x/(m+6); stop once m > 2|x| + 8 (ratio < 1/2 from there on)
-\* and |term| < 2^-WP: the neglected tail is then < 2^-(WP-1).
+\* |x| <= 8: the series.  term_0 = 1/120, term_{m+1} = term_m * x/(m+6); stop once m > 2|x| + 8 (ratio < 1/2
+\* from there on) and |term| < 2^-WP: the neglected tail is then < 2^-(WP-1); terms are at most 8^8/13! so the
+\* alternating sum for x = -8 loses no more than a few bits.
+\* |x| > 8: the closed form (e^x - P4(x))/x^5; e^x and P4(x) differ by a factor > 9 there, so no cancellation.
 RECURSIVE ExpTailIter(_, _, _, _, _)
 ExpTailIter(x, m, mmin, term, acc) ==
     IF m > mmin /\ BRLt(BRAbs(term), BRPow2(-WP)) THEN acc
     ELSE ExpTailIter(x, m + 1, mmin, Tr(BRDiv(BRMul(term, x), BR(m + 6))), BRAdd(acc, term))
-ExpTail(x) == ExpTailIter(x, 0, 2 * BRFloorInt(BRAbs(x)) + 10, BRFrac(1, 120), BRZero)
+ExpTailSeries(x) == ExpTailIter(x, 0, 2 * BRFloorInt(BRAbs(x)) + 10, BRFrac(1, 120), BRZero)
+ExpTail(x) ==
+    IF BRLe(BRAbs(x), BR(8)) THEN ExpTailSeries(x)
+    ELSE BRDiv(BRSub(ExpBig(x), P4(x)), BRMul(BRMul(BRMul(x, x), BRMul(x, x)), x))
 
 \* e^x from the tail (used only by sanity checks)
 Exp(x) ==
